@@ -18,6 +18,10 @@ import (
 // Damage is one operation of the catalogue.
 //
 //	flip      XOR 0x01 into the byte at offset N of regular file Path
+//	collide   two bit flips that keep the weak checksum of block N of regular file Path: the
+//	          first offset i of that block whose byte has bit 1 clear while the byte at
+//	          i+32768 has it set; both bits are flipped (+2, -2: byte sum unchanged, weighted
+//	          sum changes by 2*32768 = 0 mod 2^16), so only the strong hash tells
 //	truncate  cut regular file Path to N bytes (0 < N < size)
 //	empty     cut regular file Path to 0 bytes
 //	extend    append N bytes (Fill: "rand" pseudo-random | "zero") to non-empty regular file Path
@@ -41,7 +45,7 @@ type Damage struct {
 
 func (d Damage) String() string {
 	switch d.Op {
-	case "flip", "truncate":
+	case "flip", "truncate", "collide":
 		return fmt.Sprintf("%s(%s,%d)", d.Op, d.Path, d.N)
 	case "extend", "fill":
 		return fmt.Sprintf("%s(%s,%d,%s)", d.Op, d.Path, d.N, d.Fill)
@@ -85,6 +89,21 @@ func (d Damage) Apply(dir string, seed int64) (applied bool, err error) {
 		b[0] ^= 0x01
 		_, err = f.WriteAt(b[:], d.N)
 		return true, err
+	case "collide":
+		if !isFile {
+			return false, nil
+		}
+		data, err := os.ReadFile(p)
+		if err != nil {
+			return false, err
+		}
+		i, ok := collideOffset(data, d.N)
+		if !ok {
+			return false, nil
+		}
+		data[i] ^= 0x02
+		data[i+32768] ^= 0x02
+		return true, os.WriteFile(p, data, st.Mode().Perm())
 	case "truncate":
 		if !isFile || d.N >= st.Size() || d.N <= 0 {
 			return false, nil
@@ -147,6 +166,21 @@ func (d Damage) Apply(dir string, seed int64) (applied bool, err error) {
 	return false, fmt.Errorf("bad damage %+v", d)
 }
 
+// collideOffset finds the first offset of block k where the double flip applies.
+func collideOffset(data []byte, k int64) (int64, bool) {
+	start := k * wh.B
+	end := start + wh.B
+	if end > int64(len(data)) {
+		end = int64(len(data))
+	}
+	for i := start; i+32768 < end; i++ {
+		if data[i]&2 == 0 && data[i+32768]&2 != 0 {
+			return i, true
+		}
+	}
+	return 0, false
+}
+
 // boundaries returns the boundary set of a file of the given size:
 // {0, 1, size-1, size} and {kB-1, kB, kB+1} for every block boundary kB <= size,
 // which contains the plan's {0,1,B-1,B,B+1,size-1,size}. Restricted to [0,size].
@@ -172,7 +206,7 @@ var growths = []int64{1, wh.B - 1, wh.B, wh.B + 1, 2*wh.B + 1}
 // Catalogue lists every single damage for the signed container, files first,
 // then symlinks, then directories (deepest first), so that in a sequence the
 // operation on a descendant is applied before the one on its ancestor.
-func Catalogue(c *tlc.Container) []Damage {
+func Catalogue(c *tlc.Container, pristine map[string][]byte) []Damage {
 	var out []Damage
 	for _, f := range c.Files {
 		if f.Size == 0 {
@@ -184,6 +218,11 @@ func Catalogue(c *tlc.Container) []Damage {
 			for _, o := range boundaries(f.Size) {
 				if o < f.Size {
 					out = append(out, Damage{Op: "flip", Path: f.Path, N: o})
+				}
+			}
+			for k := int64(0); k*wh.B < f.Size; k++ {
+				if _, ok := collideOffset(pristine[f.Path], k); ok {
+					out = append(out, Damage{Op: "collide", Path: f.Path, N: k})
 				}
 			}
 			for _, o := range boundaries(f.Size) {
